@@ -150,7 +150,11 @@ def judgeOutcome (thrown : List String) (st : JSt) (tag text : String) : List St
   -- failed instruction
   let scratchBad := if o.segs.any (fun s => (s.splitOn "scratch-mismatch").length > 1) then
     [s!"scratch {tag} the master's error handler ran with interpreter scratch state left by the failed instruction"] else []
-  regBad ++ scratchBad ++ loopBad ++ probeBad ++ sideBad ++ hbBad ++ hbStayBad ++ crashBad ++ cgBad ++ resBad ++ checkCatches thrown o.segs
+  -- a recovery point INSIDE the evaluation (safe apply / safe function-pointer call that failed) must hand control back with
+  -- the registers of its caller: the LPC side checks this_object() right after it
+  let coBad := if o.segs.any (fun s => (s.splitOn "co-changed").length > 1) then
+    [s!"restore {tag} current_object not restored by a recovery point inside the evaluation"] else []
+  regBad ++ coBad ++ scratchBad ++ loopBad ++ probeBad ++ sideBad ++ hbBad ++ hbStayBad ++ crashBad ++ cgBad ++ resBad ++ checkCatches thrown o.segs
 
 def judgeLine (thrown : List String) (st : JSt) (line : String) : JSt :=
   if line.startsWith "crash" || line.startsWith "sanitizer" then { st with bad := st.bad ++ [s!"crash {line}"] }
